@@ -28,11 +28,11 @@ REACH = [
     "insights/client/utilities.py::write_to_disk",
 ]
 PLAN = {
-    "quick": {"shards": 8, "cases": 1200, "timeout_s": 900, "min_evaluations": 8000,
-              "min_counters": {"operations": 80000, "identifier_reads": 20000, "marker_operations": 20000, "symlinks_replaced": 1500,
-                               "reads_of_existing_file_checked": 8000}},
-    "thorough": {"shards": 16, "cases": 25000, "timeout_s": 3300, "min_evaluations": 300000,
-                 "min_counters": {"operations": 3000000}},
+    "quick": {"shards": 8, "cases": 3600, "timeout_s": 900, "min_evaluations": 24000,
+              "min_counters": {"operations": 240000, "identifier_reads": 60000, "marker_operations": 60000, "symlinks_replaced": 4500,
+                               "reads_of_existing_file_checked": 24000}},
+    "thorough": {"shards": 16, "cases": 12000, "timeout_s": 3300, "min_evaluations": 150000,
+                 "min_counters": {"operations": 1500000}},
 }
 KNOWN_F10 = "identifier-not-persisted-because-directory-absent"
 CANON = re.compile(r"^[0-9a-f]{8}-[0-9a-f]{4}-[0-9a-f]{4}-[0-9a-f]{4}-[0-9a-f]{12}$")
